@@ -303,7 +303,7 @@ func RandClauseV(r *rand.Rand, o ConstOpts) ClauseV {
 	if r.Intn(3) == 0 {
 		nt := 1
 		if r.Intn(4) == 0 {
-			nt = 2
+			nt = 2 + r.Intn(4) // chains of up to five transforms
 		}
 		for t := 0; t < nt; t++ {
 			var stmts []StmtV
